@@ -84,7 +84,7 @@ Proof. exact scalar_object_exact. Qed.
 Print Assumptions C02_scalar_objects_exact.
 
 (* ... and through every depth: objects whose properties are such scalars, numbers with any combination of the four bounds (no
-   multipleOf), arrays of plain strings, numbers or booleans with any item-count limits, string enums, references to definitions that are such objects, or, recursively, such objects again, nested n levels deep
+   multipleOf), arrays of plain strings, numbers or booleans with any item-count limits, maps of plain strings, numbers or booleans, string enums, references to definitions that are such objects, or, recursively, such objects again, nested n levels deep
    ([sobj n]); documents without nulls (array items included), with ASCII strings, integer literals inside Go's int and distinct keys at
    every level ([dok n]).
    By induction on n over C02_level_exact: the check attached to an object-valued property is the nested struct's own method. *)
